@@ -911,6 +911,21 @@ def mon_C12(sc, trace):
                 v.append("C12: node %d telemetry #%d at %r, the mobility updates are at %s (consecutive multiples of %r)"
                          % (n, k, got[k], want[max(0, k - 1):k + 2], rate))
     counts = [len(times[n]) for n in range(nn)]
+    # a run that ended by reaching its duration has executed every update due by then (0 + i, (0 + i) + i, ...):
+    # each node got exactly that many telemetry callbacks
+    if (P and P[-1][0] == "end" and P[-1][1] == "done" and sc["dur"] is not None and sc["maxit"] is None
+            and sc["drv"][0] == "run" and rate > 0 and nn > 0 and not has(sc, "A")):
+        want_n, x = 0, 0.0
+        while want_n < 100000:
+            x = x + rate
+            if x > sc["dur"]:
+                break
+            want_n += 1
+        for n in range(nn):
+            if counts[n] != want_n:
+                v.append("C12: node %d got %d telemetry callbacks, the run lasted until %r with an update every %r: %d updates"
+                         % (n, counts[n], sc["dur"], rate, want_n))
+                break
     if counts and max(counts) - min(counts) > 1:
         v.append("C12: telemetry counts per node differ by more than one update: %s" % counts)
     done = P and P[-1][0] == "end" and P[-1][1] == "done" and sc["maxit"] is None
